@@ -1235,7 +1235,12 @@ class Ctx:
             return self.unop(rv[1], self.operand(fr, rv[2]))
         if k == "discriminant":
             v = self.place_loc(fr, rv[1]).get()
-            return self.discriminant(v)
+            d = self.discriminant(v)
+            ty = (dest_ty or "").strip()
+            if ty in INT_BITS and ty != d.ty and d.concrete:
+                # the discriminant has the enum's repr type (`Ordering` is an i8: Less = 255)
+                d = mk_int(d.v & ((1 << INT_BITS[ty]) - 1), ty)
+            return d
         if k == "len":
             v = self.place_loc(fr, rv[1]).get()
             return mk_int(len(v.items), "usize")
@@ -1282,7 +1287,7 @@ class Ctx:
                 return mk_int(1 if p.v else 0, "isize")
             return mk_int(z3.If(p.v, z3.BitVecVal(1, 64), z3.BitVecVal(0, 64)), "isize")
         if isinstance(v, Agg) and v.variant is not None and v.ty in ENUMS:
-            return mk_int(variant_index(v.ty, v.variant), "isize")
+            return mk_int(variant_index(v.ty, v.variant) & ((1 << 64) - 1), "isize")     # negative discriminants (Ordering::Less = -1) in two's complement
         if isinstance(v, SymEnum):
             return v.disc
         raise Unsupported("discriminant of %r" % (v,))
